@@ -11,11 +11,15 @@ use serde_json::{json, Value};
 pub struct C16 {
     pub tpl0: usize,
     pub initial_tab: Option<usize>,
+    /// builder order: 0 = with_style, with_tab_width; 1 = with_tab_width, with_style;
+    /// 2 = with_message, with_prefix, with_tab_width, with_style; 3 = with_tab_width, with_message, with_prefix, with_style
+    pub order: u8,
 }
 
 impl C16 {
     fn config(&self) -> String {
-        format!("initial_template={} with_tab_width={:?}", self.tpl0, self.initial_tab)
+        let order = ["", " builder order tab-width,style", " builder order message,prefix,tab-width,style", " builder order tab-width,message,prefix,style"][self.order as usize];
+        format!("initial_template={} with_tab_width={:?}{order}", self.tpl0, self.initial_tab)
     }
 }
 
@@ -43,11 +47,28 @@ impl Hist for C16 {
     fn run(&self, hist: &[BOp], stats: &mut Stats) -> Verdict {
         clock::reset();
         let spy = Spy::new(80, 12, false);
-        let mut pb = ProgressBar::with_draw_target(Some(5), ProgressDrawTarget::term_like(spy.boxed())).with_style(style(self.tpl0));
+        let mut pb = ProgressBar::with_draw_target(Some(5), ProgressDrawTarget::term_like(spy.boxed()));
         let mut rf = RefState::new(Some(5), Fin::AndClear, self.tpl0);
-        if let Some(t) = self.initial_tab {
-            pb = pb.with_tab_width(t);
-            rf.tab_width = t;
+        let t = self.initial_tab.unwrap_or(8);
+        rf.tab_width = t;
+        match self.order {
+            0 => {
+                pb = pb.with_style(style(self.tpl0));
+                if self.initial_tab.is_some() {
+                    pb = pb.with_tab_width(t);
+                }
+            }
+            1 => pb = pb.with_tab_width(t).with_style(style(self.tpl0)),
+            2 => {
+                pb = pb.with_message("w\tm").with_prefix("q\t").with_tab_width(t).with_style(style(self.tpl0));
+                rf.msg = "w\tm".into();
+                rf.prefix = "q\t".into();
+            }
+            _ => {
+                pb = pb.with_tab_width(t).with_message("w\tm").with_prefix("q\t").with_style(style(self.tpl0));
+                rf.msg = "w\tm".into();
+                rf.prefix = "q\t".into();
+            }
         }
         let shown: Vec<String> = hist.iter().map(|o| format!("{:?}", o)).collect();
         let mut frame: Option<Vec<String>> = None;
@@ -97,7 +118,16 @@ impl Hist for C16 {
 
 fn configs(tier: Tier) -> Vec<(C16, usize)> {
     let d = if tier == Tier::Quick { 5 } else { 7 };
-    vec![(C16 { tpl0: 2, initial_tab: None }, d), (C16 { tpl0: 0, initial_tab: Some(4) }, d - 1), (C16 { tpl0: 1, initial_tab: Some(0) }, d - 1)]
+    let mut v = vec![(C16 { tpl0: 2, initial_tab: None, order: 0 }, d), (C16 { tpl0: 0, initial_tab: Some(4), order: 0 }, d - 1), (C16 { tpl0: 1, initial_tab: Some(0), order: 0 }, d - 1)];
+    // the other builder orders, every template, shallower
+    for order in 1..=3u8 {
+        for tpl0 in 0..3 {
+            for tab in [0usize, 4] {
+                v.push((C16 { tpl0, initial_tab: Some(tab), order }, d - 2));
+            }
+        }
+    }
+    v
 }
 
 pub fn run(tier: Tier, shard: Shard, stats: &mut Stats) {
@@ -109,7 +139,7 @@ pub fn run(tier: Tier, shard: Shard, stats: &mut Stats) {
 pub fn meta(tier: Tier) -> Meta {
     Meta {
         level: "model_checking",
-        rule: "stateless DFS over all orders of set_tab_width(0|2|8) / set_style (literal tab, custom key writing a tab, prefix|msg) / style round trip through pb.style().template(..) / set_message / set_prefix / finish_with_message / tick to the stated depth, from three initial configurations (with and without with_tab_width); after every operation: no TAB byte reached the terminal, the document equals the reference expansion with the current width, message()/prefix() return the expanded text; non-trivial = an expanded tab or a separator is on screen".into(),
+        rule: "stateless DFS over all orders of set_tab_width(0|2|8) / set_style (literal tab, custom key writing a tab, prefix|msg) / style round trip through pb.style().template(..) / set_message / set_prefix / finish_with_message / tick to the stated depth, from three initial configurations (with and without with_tab_width) plus 18 configurations built in the other builder orders (with_tab_width before with_style, with_message/with_prefix before or after with_tab_width); after every operation: no TAB byte reached the terminal, the document equals the reference expansion with the current width, message()/prefix() return the expanded text; non-trivial = an expanded tab or a separator is on screen".into(),
         assumptions: vec!["terminal model 80x12; +1 s virtual time between operations".into()],
         bounds: json!({"configurations": configs(tier).iter().map(|(c, d)| json!({"config": c.config(), "depth": d, "alphabet": 13})).collect::<Vec<_>>()}),
         exhaustive: true,
